@@ -227,6 +227,9 @@ func (m ClientState) RestrictChain(cdc codec.BinaryCodec, store storetypes.KVSto
 		}
 		current = *tmpConsensus
 	}
+	// the fork's lowest block (at height ti) is rewritten as well, so that
+	// newHashes[len-1] is the block at height ti
+	newHashes = append(newHashes, new.Hash())
 	for i := len(newHashes) - 1; i >= 0; i-- {
 		newTmp := store.Get(EthHeaderIndexKey(newHashes[i], ti.GetRevisionHeight()))
 		if newTmp == nil {
